@@ -26,6 +26,8 @@ pub enum HOp {
     Reset,
     /// LzmaDecoder::reset(Some(x))
     ResetSize(Option<u64>),
+    /// n consecutive reset(None) / reset() calls
+    ResetMany(u32),
 }
 
 #[derive(Clone, Debug, PartialEq, Eq, Hash, Serialize, Deserialize)]
@@ -180,9 +182,10 @@ impl Property for C14 {
             }
             Case { kind: Kind::Lzma2, ops }
         } else {
-            let init_size = match a.init_sel % 3 {
-                0 => None,
-                1 => Some((a.init_sel as u64) / 3),
+            let init_size = match a.init_sel % 7 {
+                0 | 1 => None,
+                2 | 3 => Some((a.init_sel as u64) / 3),
+                4 => Some(u64::MAX),
                 _ => Some(7),
             };
             let mut eff = init_size;
@@ -215,7 +218,12 @@ impl Property for C14 {
                         eff = Some(l);
                     }
                     4 => {
-                        let v = if s.trunc % 2 == 0 { l + 1 } else { l.saturating_sub(1) };
+                        let v = match s.trunc % 5 {
+                            0 | 1 => l + 1,
+                            2 => l.saturating_sub(1),
+                            3 => u64::MAX,
+                            _ => u64::MAX - 1,
+                        };
                         ops.push(HOp::ResetSize(Some(v)));
                         eff = Some(v);
                     }
@@ -253,6 +261,47 @@ impl Property for C14 {
             }
         }
     }
+    fn fixed_cases(&self, _tier: Tier) -> Vec<Case> {
+        // reuse counts around 2^8 and 2^16, with literal-heavy streams for large lc+lp
+        let mut v = Vec::new();
+        let mk_stream = |props: Props, seed: u8, n: usize| -> Vec<u8> {
+            let ops: Vec<crate::refmodel::program::Op> = (0..n)
+                .map(|i| crate::refmodel::program::Op::Lit(((i as u8).wrapping_mul(seed) >> 1) ^ seed))
+                .collect();
+            encode_lzma(props, &ops, Some(2)).payload
+        };
+        for props in [Props::new(5, 0, 2), Props::new(8, 4, 0), Props::new(3, 0, 2)] {
+            for n in [255u32, 256, 257, 65535, 65536, 65537] {
+                // a reset of the lc+lp = 12 tables touches 6 MiB: keep that to the small counts
+                if props.lc + props.lp > 8 && n > 1000 {
+                    continue;
+                }
+                let a = mk_stream(props, 37, 300);
+                let b = mk_stream(props, 11, 40);
+                let mut ops = vec![
+                    HOp::Decompress { bytes: a.clone(), note: "valid".into() },
+                    HOp::ResetMany(n / 2),
+                    HOp::Decompress { bytes: b.clone(), note: "valid".into() },
+                    HOp::ResetMany(n - n / 2),
+                    HOp::Decompress { bytes: a.clone(), note: "valid".into() },
+                ];
+                if n == 65536 {
+                    ops.insert(1, HOp::Decompress { bytes: b.clone(), note: "valid".into() });
+                }
+                v.push(Case { kind: Kind::Lzma { props, dict: 1 << 16, init_size: None }, ops });
+                // all resets in one go
+                v.push(Case {
+                    kind: Kind::Lzma { props, dict: 1 << 16, init_size: None },
+                    ops: vec![
+                        HOp::Decompress { bytes: a.clone(), note: "valid".into() },
+                        HOp::ResetMany(n),
+                        HOp::Decompress { bytes: a.clone(), note: "valid".into() },
+                    ],
+                });
+            }
+        }
+        v
+    }
     fn rule(&self) -> String {
         "proptest generates operation histories (1..=8 steps) over ONE raw decoder object: LzmaDecoder (any lc/lp/pb, dictionary 1..=2^23, initial size None/Some) with ops {decompress(valid stream | truncated | byte-mutated), reset(None), reset(Some(None)), reset(Some(Some(next length))), reset(Some(Some(next length +-1))), double reset}, and Lzma2Decoder with ops {decompress(valid chunk sequence with changing lc/lp/pb | truncated | corrupt | a stream whose first chunk carries no reset and relies on the initial 0/0/0 properties), reset}. The harness tracks the effective size ('last specified') and, for every decompress that follows at least one reset since the previous decompress, runs the same bytes through a freshly constructed decoder with the same parameters and effective size. Oracle: same verdict and byte-identical output. Non-trivial = the compared decompress is preceded by a decompress that moved state (decoded copies, failed half-way, or changed properties); distinct = SipHash of the history.".into()
     }
@@ -269,6 +318,7 @@ impl Property for C14 {
             ("fresh verdict:Ok", 5000 * k),
             ("fresh verdict:Err", 3000 * k),
             ("reuse cycles >= 3", 1000 * k),
+            (">= 65536 resets between two decodes", 3),
         ]
     }
 
@@ -298,6 +348,17 @@ impl Property for C14 {
                             d.reset()
                         }
                         resets_since += 1;
+                    }
+                    HOp::ResetMany(n) => {
+                        for _ in 0..*n {
+                            if let Some(d) = dec1.as_mut() {
+                                d.reset(None)
+                            }
+                            if let Some(d) = dec2.as_mut() {
+                                d.reset()
+                            }
+                        }
+                        resets_since += *n as usize;
                     }
                     HOp::ResetSize(x) => {
                         if let Some(d) = dec1.as_mut() {
@@ -359,6 +420,9 @@ impl Property for C14 {
         if results.len() >= 3 {
             st.class("reuse cycles >= 3");
         }
+        if c.ops.iter().any(|o| matches!(o, HOp::ResetMany(n) if *n >= 65536)) {
+            st.class(">= 65536 resets between two decodes");
+        }
         if c.ops.iter().any(|o| matches!(o, HOp::ResetSize(_))) && !is_l2 {
             st.class("reset:size re-specified");
         }
@@ -407,6 +471,7 @@ fn summarize(c: &Case) -> Vec<String> {
             HOp::Decompress { bytes, note } => format!("decompress({}B {}: {})", bytes.len(), note, hex_prefix(bytes, 24)),
             HOp::Reset => "reset".into(),
             HOp::ResetSize(x) => format!("reset(Some({:?}))", x),
+            HOp::ResetMany(n) => format!("reset x {}", n),
         })
         .collect()
 }
